@@ -185,7 +185,7 @@ def specStep (sh : Shadow) (o : Proto.Op) : Except String Shadow := do
     | ["plugin", "post"] =>
       pure { sh with period := .enabled,
                      live := sh.live.map (fun r => if r.period == .checking then { r with period := .enabled } else r) }
-    | ["plugin", "final", n] => do
+    | ["plugin", "final", n] | ["plugin", "refinal", n] => do
       -- the final report is about the blocks allocated while the detector was enabled and not released: "" exactly when
       -- their number is the announced one, otherwise total, entries and the no-leaks answer must agree with that set
       let want := sortStr ((sh.live.filter (inPeriod "enabled")).map leakKey)
@@ -194,6 +194,9 @@ def specStep (sh : Shadow) (o : Proto.Op) : Except String Shadow := do
       else
         if some want.length == n.toNat? then throw s!"FinalReport({n}) reports although exactly {n} blocks are outstanding"
         match obs.find? (fun l => l.head? == some "report") with
+        | some ["report", "full"] => pure ()       -- the text buffer is full: the answer may be cut (capacity is not the subject)
+        | some ["report", "unparsed", _] =>
+          throw s!"FinalReport({n}) is not a report of the {want.length} outstanding blocks (header, entries, total or the no-leaks answer are off)"
         | some ["report", "none"] =>
           if !want.isEmpty then throw s!"FinalReport({n}) says no leaks but {want.length} blocks are outstanding"
         | some ["report", "truncated", k] =>
@@ -256,9 +259,14 @@ def specStep (sh : Shadow) (o : Proto.Op) : Except String Shadow := do
       if isLive sh (a.toNat?.getD 0) then throw "environment: the client dropped a block that is still outstanding"
       pure sh
     | ["mark"] => pure { sh with live := sh.live.map (fun r => if r.period == .checking then { r with period := .enabled } else r) }
-    | ["report", p] => do
+    -- `rereport`: the report asked for again without a startChecking() in between; judged, like every report, by the text
+    -- this call produced alone
+    | ["report", p] | ["rereport", p] => do
       let want := sortStr ((sh.live.filter (inPeriod p)).map leakKey)
       match obs.find? (fun l => l.head? == some "report") with
+      | some ["report", "full"] => pure ()         -- the text buffer is full: the answer may be cut (capacity is not the subject)
+      | some ["report", "unparsed", _] =>
+        throw s!"report({p}) is not a report of the {want.length} outstanding blocks (header, entries, total or the no-leaks answer are off)"
       | some ["report", "none"] =>
         if !want.isEmpty then throw s!"report({p}) says no leaks but {want.length} blocks are outstanding"
       | some ["report", "truncated", n] =>
